@@ -87,10 +87,12 @@ RECURSIVE HasReserved(_)
 HasReserved(v) == IF IsObj(v) THEN (DOMAIN v.f \cap {"_sd", "..."} # {}) \/ \E k \in DOMAIN v.f : HasReserved(v.f[k])
                   ELSE IF IsArr(v) THEN \E i \in DOMAIN v.e : HasReserved(v.e[i])
                   ELSE FALSE
-\* no digest list, placeholder or hash-algorithm marker in a value
-RECURSIVE NoReserved(_)
-NoReserved(v) == IF IsObj(v) THEN DOMAIN v.f \cap {"_sd", "...", "_sd_alg"} = {} /\ \A k \in DOMAIN v.f : NoReserved(v.f[k])
-                 ELSE IF IsArr(v) THEN \A i \in DOMAIN v.e : NoReserved(v.e[i]) ELSE TRUE
+\* no digest list or placeholder anywhere in a value, and no hash-algorithm marker at its top level
+\* (below the top level `_sd_alg` is an ordinary member name: draft-07 5.1.1)
+RECURSIVE NoDigestData(_)
+NoDigestData(v) == IF IsObj(v) THEN DOMAIN v.f \cap {"_sd", "..."} = {} /\ \A k \in DOMAIN v.f : NoDigestData(v.f[k])
+                   ELSE IF IsArr(v) THEN \A i \in DOMAIN v.e : NoDigestData(v.e[i]) ELSE TRUE
+NoReserved(v) == NoDigestData(v) /\ (IsObj(v) => ~Has(v, "_sd_alg"))
 \* the library-added top-level members are set aside before the refinement mapping is applied
 UserPart(pl, hkGiven, U) == Without(pl, {"_sd_alg"} \cup (IF hkGiven /\ ~Has(U, "cnf") THEN {"cnf"} ELSE {}))
 IssueExact(U, S, hkjwk, pl, D) ==
